@@ -1,5 +1,101 @@
-(* C46 -- SuperSpeed IN endpoints deliver data and signal readiness correctly. *)
+(* C46 -- SuperSpeed IN endpoints deliver data and signal readiness correctly.
+
+   Specification: the referee of Model/SsIn.v (section 3) -- an observer of the endpoint's interface that keeps,
+   from what it has SEEN on the interface only, the list of stream words accepted and not yet acknowledged, the
+   sequence number the host expects, and where the host stands (IN request unanswered / data packet in flight /
+   packet awaiting its ACK / told NRDY).  In every cycle it first checks the environment's move (stream producer,
+   host, transaction packet generator; `None` = contract broken) and then judges the endpoint's outputs:
+     ck_start / ck_word  a data packet starts only as the answer to an IN request, is the NEXT packet of the stream
+                         (the first max_packet_size bytes not yet acknowledged, or everything up to the end of the
+                         transfer), carries the expected sequence number, its length, endpoint and direction, and
+                         offers exactly its words (byte masks, first/last flags) until each is taken;
+     ck_zlp              a zero-length packet is sent exactly when the transfer ended on a packet boundary;
+     ck_nrdy             NRDY answers an IN request exactly when no packet is held;
+     ck_erdy, _live      ERDY once after an NRDY, when (and as soon as) a packet is held;
+     ck_deadline, ck_one every IN request is answered -- at once (ZLP, NRDY) or by a data packet two cycles later.
+   Sequence numbers advance only with the host's acknowledgement (r_exp), a retry re-requests the same packet
+   (same r_pend, same r_exp), an acknowledgement removes exactly the acknowledged packet from r_pend: the
+   acknowledged payloads are the stream, once, in order, cut into max-size packets with short/zero-length ends. *)
 From Coq Require Import NArith List Bool. Import ListNotations.
 From LunaLib Require Import Machine.
 From LunaModel Require Import SsIn SsIn_proofs.
 Open Scope N_scope.
+
+(* For every max_packet_size (multiple of 4, 8..1024), endpoint number, sequence-number width and EVERY input
+   history (all stream words / valid gaps, all host ACK / retry / IN-request timings, all tx.ready patterns):
+   the referee accepts the endpoint model's interface trace, up to the first cycle (if any) in which the
+   environment breaks its contract. *)
+Theorem C46_endpoint_meets_spec : forall mps ep sb, 8 <= mps -> mps mod 4 = 0 -> mps <= 1024 ->
+  forall tr, accepts (ss_next mps ep sb) (ss_outputs mps ep sb) (ref_step mps ep sb) ss_init ref_init tr = true.
+Proof. intros mps ep sb H8 H4 H1k tr. apply ssin_accepted; assumption. Qed.
+Print Assumptions C46_endpoint_meets_spec.
+
+(* The same on packed interface words: any machine whose output words equal the model's (this is what the tie
+   proves about the netlist regenerated from /repo) is accepted by the referee. *)
+Theorem C46_endpoint_meets_spec_io : forall mps ep sb, 8 <= mps -> mps mod 4 = 0 -> mps <= 1024 -> sb <= 5 ->
+  forall tr outs, outs = run (ss_step mps ep sb) ss_init tr ->
+  ref_accepts_io mps ep sb ref_init (combine tr outs) = true.
+Proof. exact ssin_accepted_io. Qed.
+Print Assumptions C46_endpoint_meets_spec_io.
+
+(* The packed model is a faithful coding of the typed one (used by the lock-step tie). *)
+Theorem C46_model_packing : forall s, ss_wf s -> ss_dec (ss_enc s) = s.
+Proof. exact ss_dec_enc. Qed.
+Print Assumptions C46_model_packing.
+
+(* ---- the contract is satisfiable and the judgement is not vacuous: a complete session at max_packet_size 8,
+   endpoint 1.  IN request before any data (NRDY), an 8-byte transfer arrives (ERDY), IN request, the packet is
+   sent, the host asks for a retry, the packet is sent again, ACK + request: the zero-length packet follows with
+   the next sequence number, ACK; a 3-byte transfer, IN request, a one-word packet, ACK.
+   The referee never sees a broken contract, accepts every cycle, and ends with three packets acknowledged
+   (sequence number 3 expected next) and nothing pending. ---- *)
+Definition idle : N := mk_in 0 false 0 true false 0 false 0 0 true false.
+Definition gen_busy (done : bool) (valid : N) (last : bool) (p : N) : N :=
+  mk_in valid last p true false 0 false 0 0 false done.
+Definition host (retry : bool) (nseq nump : N) : N := mk_in 0 false 0 true true 1 retry nseq nump true false.
+Definition session : list N :=
+  [ host false 0 1;                      (* IN request, nothing held: NRDY *)
+    gen_busy false 15 false 287454020;   (* word 0x11223344 *)
+    gen_busy true 15 true 2864434397;    (* word 0xAABBCCDD, end of transfer (8 bytes = one full packet) *)
+    idle;                                (* ERDY taken by the generator *)
+    gen_busy true 0 false 0;
+    host false 0 1;                      (* IN request: packet 0 *)
+    idle; idle; idle; idle;
+    host true 0 1;                       (* retry *)
+    idle; idle; idle;
+    host false 1 1;                      (* ACK + IN request: the zero-length packet, number 1 *)
+    host false 2 0;                      (* ACK *)
+    mk_in 7 true 6710886 true false 0 false 0 0 true false;     (* a 3-byte transfer *)
+    host false 2 1;                      (* IN request: packet 2 *)
+    idle; idle; idle;
+    host false 3 0 ].                    (* ACK *)
+
+Example C46_session_judged :
+  option_map (fun r => (r_exp r, r_pend r, r_out r))
+    (ref_run_io 8 1 5 ref_init (combine session (run (ss_step 8 1 5) ss_init session))) = Some (3, [], false).
+Proof. vm_compute. reflexivity. Qed.
+
+(* what the host saw in that session, per cycle: (tx.valid, tx_zlp, tx_sequence_number, send_nrdy, send_erdy) *)
+Example C46_session_outputs :
+  map (fun o => let u := unpack_out o in (o_valid u, o_zlp u, o_seq u, o_nrdy u, o_erdy u))
+      (run (ss_step 8 1 5) ss_init session) =
+  [ (0, false, 0, true, false); (0, false, 0, false, false); (0, false, 0, false, false);
+    (0, false, 0, false, true); (0, false, 0, false, false); (0, false, 0, false, false);
+    (0, false, 0, false, false); (15, false, 0, false, false); (15, false, 0, false, false);
+    (0, false, 0, false, false); (0, false, 0, false, false); (0, false, 0, false, false);
+    (15, false, 0, false, false); (15, false, 0, false, false);
+    (0, true, 1, false, false); (0, false, 1, false, false); (0, false, 2, false, false);
+    (0, false, 2, false, false); (0, false, 2, false, false); (7, false, 2, false, false);
+    (0, false, 2, false, false); (0, false, 2, false, false) ].
+Proof. vm_compute. reflexivity. Qed.
+
+(* the referee does reject: the same session against an endpoint that never advances its sequence number
+   (outputs of the model with the sequence field forced to 0) fails at the zero-length packet *)
+Example C46_referee_rejects :
+  ref_accepts_io 8 1 5 ref_init
+    (combine session (map (fun o => pack_out (let u := unpack_out o in
+        {| o_ready := o_ready u; o_valid := o_valid u; o_first := o_first u; o_last := o_last u;
+           o_payload := o_payload u; o_zlp := o_zlp u; o_length := o_length u; o_seq := 0; o_ep := o_ep u;
+           o_dir := o_dir u; o_nrdy := o_nrdy u; o_erdy := o_erdy u; o_hoep := o_hoep u |}))
+      (run (ss_step 8 1 5) ss_init session))) = false.
+Proof. vm_compute. reflexivity. Qed.
